@@ -357,9 +357,22 @@ func memStage(r *rep.Report, e rep.Env) {
 							r.Violate("", "the storage layer reported a failure but the operation reported success", rep.J{"check": "fault", "state": kind, "history": hist[:oi+1], "failed_call": calls[len(calls)-1], "failed_call_number": c})
 							break
 						}
+						// the failed operation is not part of what was acknowledged: live location and
+						// storage still tell the same story (whichever way the operation was undone)
+						wf.FailAt = 0
+						if ms, ok := wf.Inner.(*core.MemStorage); ok {
+							perLive, aggLive := observe(locf)
+							if locr, errr := drv.NewLoc("D", kind, store.MemFrom(store.CopyState(ms.State(nil)))); errr == nil {
+								perRel, aggRel := observe(locr)
+								r.Count("fault_points_compared_without_retry", 1)
+								if d := diff(perLive, perRel); len(d) > 0 || strings.Join(aggLive, "\n") != strings.Join(aggRel, "\n") {
+									calls := wf.CallsCopy()
+									r.Violate("", "after an operation failed on a storage fault the live location and a location reloaded from storage differ (the failed operation was applied to one of them only)", rep.J{"check": "fault-no-retry", "state": kind, "history": hist[:oi+1], "failed_call": calls[len(calls)-1], "failed_call_number": c, "differences": d, "live_probes": aggLive, "reloaded_probes": aggRel})
+								}
+							}
+						}
 						// the client retries the operation (the fault is gone): once the retry is
 						// acknowledged, it must be durable like any acknowledged operation
-						wf.FailAt = 0
 						r.Count("fault_retries", 1)
 						if err2 := apply(locf, o); err2 == nil {
 							perLive, _ := observe(locf)
